@@ -426,6 +426,60 @@ def check_branching(ctx, conds, has_default, x):
     ctx.cls("branching_cases")
 
 
+def check_branching_history(ctx, ops):
+    """ONE BranchingModel over a history of add_branch / remove_branch / set_default_branch / calls with different inputs. Branch j's condition is
+    'bit x of mask_j is set' (conditions overlap freely); every call must run exactly the first currently registered branch whose condition holds
+    for THAT input, else the default, else raise RuntimeError.  ops: ("add", mask) | ("remove", i) | ("default",) | ("call", x)"""
+    from kaira.models.base import BaseModel
+    from kaira.models.generic.branching import BranchingModel
+    log = []
+
+    class B(BaseModel):
+        def __init__(self, sid):
+            super().__init__()
+            self.sid = sid
+
+        def forward(self, v, *a, **kw):
+            log.append(self.sid)
+            return (self.sid, v)
+    cell = {"model": "branching", "mode": "history"}
+    case = {"kind": "branching_history", "ops": [list(o) for o in ops]}
+    m = BranchingModel()
+    active, has_default, fresh, calls, multi = [], False, 0, 0, 0
+    for step, op in enumerate(ops):
+        if op[0] == "add":
+            name = f"br{fresh}"
+            fresh += 1
+            m.add_branch(name, (lambda v, mask=op[1]: bool((mask >> v) & 1)), B(name))
+            active.append((name, op[1]))
+        elif op[0] == "remove":
+            if not active:
+                continue
+            name, _ = active.pop(op[1] % len(active))
+            m.remove_branch(name)
+        elif op[0] == "default":
+            m.set_default_branch(B("default"))
+            has_default = True
+        else:
+            x = op[1]
+            hits = [nm for nm, mask in active if (mask >> x) & 1]
+            exp = hits[0] if hits else ("default" if has_default else None)
+            multi += len(hits) >= 2
+            calls += 1
+            del log[:]
+            ctx.ev()
+            try:
+                out, name = m(x, True)
+            except RuntimeError:
+                ctx.check(exp is None, "C17.b_first_match", cell, {**case, "failing_step": step}, "RuntimeError", {"branch": exp}, "branching model raised although a branch (or the default) applies", CHK)
+                continue
+            ctx.check(exp is not None and name == exp and out == (exp, x) and log == [exp], "C17.b_first_match", cell, {**case, "failing_step": step}, {"branch": name, "ran": list(log)}, {"branch": exp},
+                      "after this history the branching model did not run exactly the first registered branch whose condition holds for the input", CHK)
+    if calls >= 2 and multi:
+        ctx.nontrivial("brh", str(ops))
+    ctx.cls("branching_histories")
+
+
 def check_feedback(ctx, iters):
     from kaira.channels.base import BaseChannel
     from kaira.models.base import BaseModel
@@ -600,6 +654,12 @@ def unit_misc(ctx, n_gen):
         conds, d = t
         check_branching(ctx, conds, d, 1)
     draw_cases(st.tuples(st.lists(st.booleans(), min_size=0, max_size=8), st.booleans()), n_gen, ctx.seed * 3 + 1, f)
+    op = st.one_of(st.tuples(st.just("add"), st.integers(0, 63)), st.tuples(st.just("call"), st.integers(0, 5)), st.tuples(st.just("call"), st.integers(0, 5)),
+                   st.tuples(st.just("remove"), st.integers(0, 7)), st.just(("default",)))
+    for fixed in ([("add", 0b100000), ("add", 0b110000), ("add", 0b111111), ("call", 5), ("call", 4), ("call", 5), ("call", 0), ("call", 4), ("call", 5)],
+                  [("add", 1), ("add", 3), ("call", 1), ("call", 0), ("remove", 0), ("call", 0), ("call", 2), ("default",), ("call", 2)]):
+        check_branching_history(ctx, fixed)
+    draw_cases(st.lists(op, min_size=2, max_size=14), n_gen * 3, ctx.seed * 3 + 2, lambda ops: check_branching_history(ctx, [tuple(o) for o in ops]))
     ctx.sample({"branching": "all condition tables up to 4 branches + generated up to 8", "feedback_rounds": [1, 2, 3, 4, 5], "mac_users": [1, 2, 3, 4]})
 
 
@@ -613,6 +673,8 @@ def check_case(ctx, cell, case):
         check_parallel_history(ctx, [tuple(o) for o in case["ops"]], case["perm"], case["workers"])
     elif k == "branching":
         check_branching(ctx, case["conds"], case["default"], case["x"])
+    elif k == "branching_history":
+        check_branching_history(ctx, [tuple(o) for o in case["ops"]])
     elif k == "feedback":
         check_feedback(ctx, case["iters"])
     elif k == "mac_alias":
